@@ -569,6 +569,17 @@ def r15_inline_atomic(c, facts, rule='C09.R15'):
                 groups.setdefault(sw['otherwise'], set()).update(rest)
                 mixed = [sorted(g) for g in groups.values() if g & set(INLINE_ATOMIC) and g - set(INLINE_ATOMIC)]
                 inst['groups'] = sorted(sorted(g) for g in groups.values())
+                # ... or an arm of its own for a non-atomic kind that still hands the target on (`Array(ref a) if <guard> => Some(s)`)
+                somes = {bb for bb, blk in fn.blocks() for st in blk['stmts'] if st['s'] == 'assign' and st['rv']['r'] == 'aggr'
+                         and (st['rv'].get('adt') or '').endswith('option::Option') and st['rv'].get('variant') == 'Some' and 'Schema' in str(st['rv'].get('gargs'))}
+                atomic_targets = {x for x, g in groups.items() if g <= set(INLINE_ATOMIC)}
+                if not mixed and somes:
+                    for x, g in groups.items():
+                        if g & set(INLINE_ATOMIC):
+                            continue
+                        if somes & fn.reachable_from(x, avoid=atomic_targets - somes):
+                            mixed = [sorted(g | {INLINE_ATOMIC[0]})]
+                            break
                 if mixed:
                     c.bad(R, 'non-atomic-target-inlined:%s:%s' % (q.split('::', 1)[1], ','.join(sorted(set(mixed[0]) - set(INLINE_ATOMIC)))), '%s treats %s like the atomic targets: a reference to such a schema is emitted in place although it can contain a reference to itself' % (q, sorted(set(mixed[0]) - set(INLINE_ATOMIC))), **inst)
                 else:
@@ -612,6 +623,8 @@ def r13_export_all(c, facts, rule='C09.R13'):
 
 
 def run(c, facts):
+    import c08 as _c08k
+    c.run(lambda c: _c08k.r17_name_keyed_state(c, facts, rule='C09.R17'))      # an instantiation is named by its scope: a value cached across scopes gives two instantiations one body
     import inferrules as _I9
     c.run(lambda c: _I9.tag_rec(c, facts, c.rule('C09.R16', 'TAG-REC (shared C07.R1): occurs() descends into every nested tag, so a cycle through properties that has no schema to cut at is rejected, not looped on')))
     c.run(r13_export_all, facts)
